@@ -37,7 +37,7 @@ def plan(tier, seed):
     r3_vals = [[2, 2, 2], [2, 3, 2], [1, 2, 3]]
     r3_leafs = [[2, 2, 2], [2, 3, 2], [3, 2, 2], [1, 2, 3], [2, 3], [2, 2]] + ([[2, 2, 3], [3, 2, 3], [2, 1, 2]] if tier == 'thorough' else [])
     rank3 = [{'leaf': l, 'vals': v, 'r3': True} for l in r3_leafs for v in r3_vals]
-    misc = [{'misc': k} for k in ('scalar', 'pytree', 'inverse_zero', 'inverse_tree')]
+    misc = [{'misc': k} for k in ('scalar', 'pytree', 'inverse_zero', 'inverse_tree', 'integers')]
     return [
         {'name': 'grid', 'target': TARGET, 'x64': False, 'cases': single, 'chunk': 2},
         {'name': 'trees', 'target': TARGET, 'x64': False, 'cases': trees, 'chunk': 4},
@@ -117,6 +117,20 @@ def run(phase, cases, ctx):
         if 'misc' in case:
             a = jax.ShapeDtypeStruct((2,), f32)
             k = case['misc']
+            if k == 'integers':   # integer (or boolean) values on integer data stay integers, exactly
+                for cls_name, cls, _ in classes:
+                    iv = jnp.asarray([16777217, -3], jnp.int32)
+                    op = cls(iv, in_structure=jax.ShapeDtypeStruct((2,), jnp.int32))
+                    y = np.asarray(op.mv(jnp.asarray([1, 5], jnp.int32)))
+                    if y.dtype != np.int32 or y.tolist() != [16777217, -15]:
+                        violations.append({'kind': 'integer-values', 'case': case, 'detail': f'{cls_name}: int32 values on int32 data give {y.dtype} {y.tolist()}'})
+                    mk = jnp.asarray([True, False])
+                    opb = cls(mk, in_structure=jax.ShapeDtypeStruct((2,), jnp.int32))
+                    yb = np.asarray(opb.mv(jnp.asarray([7, 9], jnp.int32)))
+                    if yb.dtype != np.int32 or yb.tolist() != [7, 0]:
+                        violations.append({'kind': 'integer-values', 'case': case, 'detail': f'{cls_name}: boolean values on int32 data give {yb.dtype} {yb.tolist()}'})
+                nontrivial.add(json.dumps(case))
+                continue
             if k in ('scalar', 'pytree'):
                 bad = jnp.asarray(2.0, f32) if k == 'scalar' else {'u': jnp.asarray([1.0, 2.0], f32)}
                 for name, cls, _ in classes:
